@@ -68,7 +68,11 @@ pub fn eq_case_strategy(thorough: bool) -> BoxedStrategy<EqCase> {
             (
                 Just(kind),
                 Just(u),
-                vec((0..u.max(1), any::<u32>(), gen::prio_val(dom)), 0..24),
+                prop_oneof![
+                    15 => vec((0..u.max(1), any::<u32>(), gen::prio_val(dom)), 0..24),
+                    // contents above internal size thresholds (e.g. a fast path for > 256 entries)
+                    1 => vec((0u32..1200, any::<u32>(), gen::prio_val(dom)), 300..420),
+                ],
                 Just(a),
                 Just(b),
                 any::<u64>(),
@@ -204,49 +208,110 @@ where
     if !(a == &third) || !(&third == a) || !third.eq_q(b) {
         return Err(fail("not_transitive", format!("a == b but the same content built by From<Vec> compares unequal ({} pairs)", n)));
     }
-    // near misses
-    if n > 0 || c.miss == NearMiss::OneAdded {
-        let mut vq = ib.q.clone();
+    // near misses: the generated one, plus (cheap, deterministic) the entries where the two
+    // iteration orders first diverge and a spread of positions - a comparison that skips one
+    // particular entry must not go unnoticed
+    {
         let elems = s.elems();
-        let pick = if n > 0 { (c.miss_at as usize * n) >> 16 } else { 0 };
-        let applied = match c.miss {
-            NearMiss::OnePriority => {
-                let (id, _, p) = elems[pick];
-                vq.change_priority(&id, Prio::new(p.wrapping_add(1)));
-                true
-            }
-            NearMiss::OneRemoved => {
-                vq.remove(&elems[pick].0);
-                true
-            }
-            NearMiss::OneAdded => {
-                let fresh = s.m.keys().next_back().map_or(0, |m| m + 1).max(c.universe);
-                // the added pair has the priority of an existing element: same priority multiset shape
-                vq.push(Key::new(fresh, 0), Prio::new(elems.first().map_or(0, |e| e.2)));
-                true
-            }
-            NearMiss::TwoExchanged => {
-                let (i1, _, p1) = elems[pick];
-                match elems.iter().find(|e| e.2 != p1) {
-                    Some(&(i2, _, p2)) => {
-                        vq.change_priority(&i1, Prio::new(p2));
-                        vq.change_priority(&i2, Prio::new(p1));
-                        stats.hit("eq_exchanged_priorities");
-                        true
+        let mut picks: Vec<usize> = Vec::new();
+        if n > 0 {
+            picks.push((c.miss_at as usize * n) >> 16);
+            let oa: Vec<u32> = a.iter().map(|(k, _)| k.id).collect();
+            let ob: Vec<u32> = b.iter().map(|(k, _)| k.id).collect();
+            if let Some(i) = oa.iter().zip(ob.iter()).position(|(x, y)| x != y) {
+                for id in [oa[i], ob[i]] {
+                    if let Some(p) = elems.iter().position(|e| e.0 == id) {
+                        picks.push(p);
                     }
-                    None => false,
+                }
+                stats.hit("eq_divergence_point_probed");
+            }
+            if n > 64 {
+                for j in 0..16 {
+                    picks.push(j * (n - 1) / 15);
                 }
             }
+        }
+        picks.dedup();
+        let variants: Vec<(NearMiss, usize)> = if n == 0 {
+            vec![(NearMiss::OneAdded, 0)]
+        } else {
+            picks.iter().enumerate().map(|(j, &p)| (if j == 0 { c.miss } else if j % 2 == 1 { NearMiss::OnePriority } else { NearMiss::OneRemoved }, p)).collect()
         };
-        if applied {
-            stats.hit("eq_near_miss");
-            if a == &vq || &vq == a || !(a != &vq) || vq.eq_q(&ib.q) {
-                return Err(fail(
-                    "different_content_equal",
-                    format!("queues differing by {:?} (at element {}) compare equal; content {:?}", c.miss, pick, elems.iter().take(12).collect::<Vec<_>>()),
-                ));
+        for (miss, pick) in variants {
+            let mut vq = ib.q.clone();
+            let applied = match miss {
+                NearMiss::OnePriority => {
+                    let (id, _, p) = elems[pick];
+                    vq.change_priority(&id, Prio::new(p.wrapping_add(1)));
+                    true
+                }
+                NearMiss::OneRemoved => {
+                    // same length: remove one, add a fresh one
+                    vq.remove(&elems[pick].0);
+                    if pick % 2 == 0 {
+                        let fresh = s.m.keys().next_back().map_or(0, |m| m + 1).max(c.universe);
+                        vq.push(Key::new(fresh, 0), Prio::new(elems[pick].2));
+                    }
+                    true
+                }
+                NearMiss::OneAdded => {
+                    let fresh = s.m.keys().next_back().map_or(0, |m| m + 1).max(c.universe);
+                    vq.push(Key::new(fresh, 0), Prio::new(elems.first().map_or(0, |e| e.2)));
+                    true
+                }
+                NearMiss::TwoExchanged => {
+                    let (i1, _, p1) = elems[pick];
+                    match elems.iter().find(|e| e.2 != p1) {
+                        Some(&(i2, _, p2)) => {
+                            vq.change_priority(&i1, Prio::new(p2));
+                            vq.change_priority(&i2, Prio::new(p1));
+                            stats.hit("eq_exchanged_priorities");
+                            true
+                        }
+                        None => false,
+                    }
+                }
+            };
+            if applied {
+                stats.hit("eq_near_miss");
+                if a == &vq || &vq == a || !(a != &vq) || vq.eq_q(&ib.q) || ib.q.eq_q(&vq) {
+                    return Err(fail(
+                        "different_content_equal",
+                        format!(
+                            "queues of {} pairs differing by {:?} at element {:?} compare equal (a==v {} v==a {} v==b {} b==v {})",
+                            n,
+                            miss,
+                            elems.get(pick),
+                            a == &vq,
+                            &vq == a,
+                            vq.eq_q(&ib.q),
+                            ib.q.eq_q(&vq)
+                        ),
+                    ));
+                }
             }
         }
+    }
+    // clone_from onto a target that already holds the same pairs in another arrangement
+    {
+        set_default_hb(c.a.hasher);
+        let mut v = s.elems();
+        v.reverse();
+        let mut t = QA::from_vec(v.iter().map(|&(id, tg, p)| (Key::new(id, tg), Prio::new(p))).collect());
+        t.clone_from(a);
+        let mut o = Vec::new();
+        check_queue(&t, &ia.model, 0, true, false, &mut o);
+        if o.is_empty() && !s.is_empty() {
+            drain_check(&t, &ia.model, c.order_b, &mut o);
+        }
+        if !t.eq_q(a) {
+            return Err(fail("clone_from_ne_source", "after clone_from onto an equal-content target the queues differ".into()));
+        }
+        if let Some(f) = o.into_iter().find(|f| matches!(f.0, Group::Order | Group::Content)) {
+            return Err(fail("clone_from_same_set_broken", format!("clone_from onto a target holding the same pairs in another order leaves a broken queue: {}", f.2)));
+        }
+        stats.hit("clone_from_same_set");
     }
     // clone part: lock-step continuation on source and clone
     let mut src = ia;
